@@ -387,7 +387,7 @@ def gen_invocations(rng, tier, wide=False):
     configs = [(ci, hdr, f) for ci in (False, True) for hdr in (False, True) for f in FEATS]
     for sch in OK_SCHEMAS:
         for d in DOCS:
-            for r in "jcsi":
+            for r in ("jcsi" if full or wide else rng.sample("jcsi", 2)):     # quick: two of the four routes per pair
                 if r == "i" and d in ("missing", "dir"):
                     continue
                 relevant = configs if full else rng.sample(configs, 3 if wide else 1)
@@ -414,6 +414,24 @@ def gen_invocations(rng, tier, wide=False):
                 d = rng.choice(GOOD_DOCS)
                 kw = {"j": [d, "missing"]} if r == "j" else {"c": [d]} if r == "c" else {"s": [d]} if r == "s" else {"stdin": d}
                 invs.append(mk(ci=ci, feats=rng.choice(FEATS), schema=sch, style=rng.randrange(1 << 30), cls="bad-schema", **kw))
+    # (C2) masking, exhaustive: a missing / unreadable / failing document alone, before and after a valid one,
+    #      on every file route, with and without --ci
+    good = {"j": "j_ok", "c": "c_ok", "s": "s_ok"}
+    for r in "jcs":
+        for ci in (False, True):
+            for badd, sch in [("missing", "any"), ("dir", "any"), ("nonutf", "any"),
+                              ({"j": "j_bad", "c": "c_bad", "s": "s_bad"}[r], "csv" if r == "s" else "plain")]:
+                if sch == "plain":
+                    g = good[r]
+                else:
+                    g = {"j": "j_2", "c": "c_arr", "s": "s_ok"}[r]
+                for files in ([badd], [badd, g], [g, badd], [g, badd, g]):
+                    invs.append(mk(ci=ci, schema=sch, style=rng.randrange(1 << 30), cls="masking", **{r: files}))
+            # across routes: the failing document on this route, a valid one on each other route
+            for r2 in "jcs":
+                if r2 != r:
+                    invs.append(mk(ci=ci, schema="any", style=rng.randrange(1 << 30), cls="masking",
+                                   **{r: ["missing"], r2: [{"j": "j_2", "c": "c_arr", "s": "s_ok"}[r2]]}))
     # (D) compile-cddl on every schema
     for sch in SCHEMAS:
         for ci in (False, True):
@@ -621,9 +639,9 @@ def run(tier, seed):
             "distinct_nontrivial": len(distinct),
             "rule": "every invocation runs the real binary, the extracted model and the expectation; distinct_nontrivial = distinct "
                     "(schema, flags, document lists) validate invocations whose schema compiles and that name at least one existing document or stdin. "
-                    "Classes: single = every compiling schema x every document x every route (configurations sampled in quick, all 24 in thorough); "
+                    "Classes: single = every compiling schema x every document x every route (quick: two sampled routes per pair and one sampled configuration; thorough: all routes x all 24 configurations); "
                     "sensitive = feature/header/sniffing-deciding schema-document pairs x every route x --ci x every feature list x --csv-header, exhaustive; "
-                    "bad-schema = every non-compiling / unreadable / missing schema x --ci x every route; compile = compile-cddl on every schema x --ci; "
+                    "bad-schema = every non-compiling / unreadable / missing schema x --ci x every route; masking = a missing / unreadable / failing document alone, before, after and between valid ones on every file route x --ci, and next to a valid document of another route, exhaustive; compile = compile-cddl on every schema x --ci; "
                     "multi = random 0-3 files per flag + stdin with missing / unreadable / failing documents in random positions; multi-valid = all documents valid",
             "class_histogram": classes,
             "histogram_route_ci_features_outcome": hist,
@@ -636,7 +654,7 @@ def run(tier, seed):
             "vm_compute_slice": len(sl),
             "exhaustive": True,
             "exhaustive_scope": ["sensitive: 6 schemas x listed documents x {json,cbor,csv,stdin} x --ci x 6 feature lists x --csv-header (csv)",
-                                 "bad-schema: 7 schema defects x --ci x 4 routes", "compile-cddl: %d schema files x --ci" % len(SCHEMAS)],
+                                 "bad-schema: 7 schema defects x --ci x 4 routes", "masking: {missing, directory, non-UTF-8, rejected} x 4 placements x 3 routes x --ci + cross-route pairs", "compile-cddl: %d schema files x --ci" % len(SCHEMAS)],
             "samples": [{"argv": argv_of(inv), "observed": o["canon"], "model": m} for inv, o, m in list(zip(invs, obs, model))[::max(1, len(invs) // 8)][:8]],
         })
         res.assumptions = [
